@@ -120,19 +120,26 @@ def connectTransactions (db : Db) (h : Nat) (c : Cache) (b : Block) : Option (Ca
   | none => none
   | some (c1, _) => connectTxs db h b.txs c1
 
-/-- `utxoCache.writeCache`: the new content of the utxo bucket. -/
-def writeCache (c : Cache) (db : Db) : Db := fun o =>
-  match c.get o with
-  | none => db o
+/-- `utxoCache.writeCache` for one slot, given the database row `d` of the same outpoint: nil and
+spent entries delete the row, unmodified entries leave it, the rest are written. -/
+def slotWrite (s : Slot) (d : Option Entry) : Option Entry :=
+  match s with
+  | none => d
   | some none => none
-  | some (some ce) => if ce.spent then none else if ce.modified then some ce.e else db o
+  | some (some ce) => if ce.spent then none else if ce.modified then some ce.e else d
 
-/-- What `FetchUtxoEntry` callers see: the abstraction map of (cache, db). -/
-def abs (c : Cache) (db : Db) : UtxoSet := fun o =>
-  match c.get o with
-  | none => db o
+/-- `utxoCache.writeCache`: the new content of the utxo bucket. -/
+def writeCache (c : Cache) (db : Db) : Db := fun o => slotWrite (c.get o) (db o)
+
+/-- What a `FetchUtxoEntry` caller sees for one slot, given the database row. -/
+def slotAbs (s : Slot) (d : Option Entry) : Option Entry :=
+  match s with
+  | none => d
   | some none => none
   | some (some ce) => ce.val
+
+/-- What `FetchUtxoEntry` callers see: the abstraction map of (cache, db). -/
+def abs (c : Cache) (db : Db) : UtxoSet := fun o => slotAbs (c.get o) (db o)
 
 /-! ### chain-level state -/
 
@@ -288,11 +295,14 @@ def disconnectTransactions (h : Nat) (b : Block) (stxos : List Entry) (v : View)
   | none => none
   | some (v1, _) => some (viewUnOuts b.cb.id h true 0 b.cb.outs v1)
 
+/-- `dbPutUtxoView` for one slot. -/
+def slotPut (s : Slot) (d : Option Entry) : Option Entry :=
+  match s with
+  | some (some ce) => if ce.modified then ce.val else d
+  | _ => d
+
 /-- `dbPutUtxoView`. -/
-def putView (v : View) (db : Db) : Db := fun o =>
-  match v.get o with
-  | some (some ce) => if ce.modified then ce.val else db o
-  | _ => db o
+def putView (v : View) (db : Db) : Db := fun o => slotPut (v.get o) (db o)
 
 /-- `UtxoViewpoint.commit` (the flag is toggled with XOR, as in the code). -/
 def commitView (v : View) : View := ⟨fun o =>
